@@ -237,6 +237,24 @@ Definition spec_C02_capacity (st : pstate) : list (string * form) :=
                         (FPbLe (map (fun u => FAnd [act u; FLe (S_ u) (S_ t); FLt (S_ t) (E_ u)]) us) (Z.of_nat (cu_size c))))) us)
     (ps_cumuls st).
 
+(* ---- the structural hypothesis (decidable; evaluated on every sampled program by the check, and on the examples) ---- *)
+Definition is_use_of (cu : curec) (a : areq) : bool :=
+  match a with
+  | AQSelect (SAuto _) ((RW (WUnit c' _), _) :: _) _ _ => Nat.eqb c' (cu_id cu)
+  | _ => false end.
+Definition is_min (k : pbkind) : bool := match k with PbMin => true | _ => false end.
+Definition use_ok (st : pstate) (cu : curec) (t : tinfo) : bool :=
+  match find (is_use_of cu) (areqs_of st (ti_id t)) with
+  | Some (AQSelect s listed n k) =>
+      list_beq rref_beq (map fst listed) (map RW (units_of cu)) && (n =? 1) && is_min k
+      && forallb (fun w => match al_get Nat.eqb (busy_of st (RW w)) (ti_id t) with Some true => true | _ => false end) (units_of cu)
+  | _ => false end.
+Definition cumul_ok (st : pstate) : bool :=
+  forallb (fun cu => forallb (use_ok st cu) (cumul_uses st cu)
+                     && forallb (fun w => existsb (fun wr => wref_beq (w_ref wr) w) (ps_workers st)) (units_of cu))
+          (ps_cumuls st).
+
+
 (* ---------------- C06: an unscheduled task occupies no worker ---------------- *)
 Definition spec_C06_inert (st : pstate) : list (string * form) :=
   flat_map (fun t =>
@@ -443,7 +461,16 @@ Definition buf_regular (b : bufrec) : bool :=
 Definition task_act (st : pstate) (t : nat) : form :=
   match find_task st t with Some ti => act ti | None => FT end.
 
-Definition spec_C09_P (b : bufrec) : list (string * form) :=
+Definition buf_has_optional (st : pstate) (b : bufrec) : bool :=
+  existsb (fun ev => match find_task st (ev_task ev) with Some ti => ti_opt ti | None => false end) (buf_events b).
+(* the clauses of a non-concurrent buffer accessed by mandatory tasks only, each access in its own slot *)
+Definition buf_proved_levels (st : pstate) (b : bufrec) : bool :=
+  buf_regular b && negb (b_conc b) && negb (buf_has_optional st b).
+Definition level_clause (st : pstate) (b : bufrec) (l c : term) : form :=
+  FEq l (TAdd (TV (VLevel0 (b_id b))
+               :: map (fun ev => when_t (FAnd [task_act st (ev_task ev); FLe (ev_time ev) c]) (TC (ev_delta ev))) (buf_events b))).
+
+Definition spec_C09_basic (b : bufrec) : list (string * form) :=
   let levels := buf_levels b in
   let changes := buf_changes b in
   let evs := buf_events b in
@@ -457,6 +484,19 @@ Definition spec_C09_P (b : bufrec) : list (string * form) :=
         map (fun c => ("change_is_access", FOr (map (fun ev => FEq c (ev_time ev)) evs))) changes
         ++ map (fun '(c1, c2) => ("change_times_increasing", FLt c1 c2)) (consecutive changes)
       else []).
+Definition spec_C09_levels (st : pstate) (b : bufrec) : list (string * form) :=
+  let levels := buf_levels b in
+  let changes := buf_changes b in
+  let evs := buf_events b in
+  (if buf_proved_levels st b then
+        (* level after the k-th reported change = initial level + the quantities of all accesses at instants up to that
+           change time (loads at task completion, unloads at task start); every access is a reported change; no two
+           accesses at the same instant *)
+        map (fun '(l, c) => ("level_after_change", level_clause st b l c)) (combine (tl levels) changes)
+        ++ map (fun ev => ("access_is_change", FOr (map (fun c => FEq c (ev_time ev)) changes))) evs
+        ++ map (fun '(e1, e2) => ("accesses_distinct", FNot (FEq (ev_time e1) (ev_time e2)))) (pairs_of evs)
+      else []).
+Definition spec_C09_P (st : pstate) (b : bufrec) : list (string * form) := spec_C09_basic b ++ spec_C09_levels st b.
 
 Definition spec_C09_S (st : pstate) (b : bufrec) : list (string * form) :=
   let levels := buf_levels b in
@@ -464,13 +504,8 @@ Definition spec_C09_S (st : pstate) (b : bufrec) : list (string * form) :=
   let evs := buf_events b in
   let has_opt := existsb (fun ev => match find_task st (ev_task ev) with Some ti => ti_opt ti | None => false end) evs in
   let suffix := (if has_opt then "_optional" else "")%string in
-  if buf_regular b then
-    (* level after the k-th reported change = initial level + all quantities of the accesses of acting tasks
-       at instants up to that change time (loads at task completion, unloads at task start) *)
-    map (fun '(l, c) => (("level_after_change" ++ suffix)%string,
-           FEq l (TAdd (TV (VLevel0 (b_id b))
-                        :: map (fun ev => when_t (FAnd [task_act st (ev_task ev); FLe (ev_time ev) c]) (TC (ev_delta ev))) evs))))
-        (combine (tl levels) changes)
+  if buf_regular b && negb (buf_proved_levels st b) then
+    map (fun '(l, c) => (("level_after_change" ++ suffix)%string, level_clause st b l c)) (combine (tl levels) changes)
     ++ map (fun ev => ("access_is_change", FImp (task_act st (ev_task ev)) (FOr (map (fun c => FEq c (ev_time ev)) changes)))) evs
     ++ (if b_conc b then map (fun '(c1, c2) => ("change_times_sorted", FLe c1 c2)) (consecutive changes)
                          ++ map (fun c => ("change_is_access_concurrent", FOr (map (fun ev => FEq c (ev_time ev)) evs))) changes
@@ -480,7 +515,7 @@ Definition spec_C09_S (st : pstate) (b : bufrec) : list (string * form) :=
   else [].
 
 Definition spec_C09 (st : pstate) : list (string * form) :=
-  flat_map (fun b => map (fun '(k, f) => (bkey b k, f)) (spec_C09_P b)) (x_bufs (ps_ext st)).
+  flat_map (fun b => map (fun '(k, f) => (bkey b k, f)) (spec_C09_P st b)) (x_bufs (ps_ext st)).
 Definition spec_C09_swept (st : pstate) : list (string * form) :=
   flat_map (fun b => map (fun '(k, f) => (bkey b k, f)) (spec_C09_S st b)) (x_bufs (ps_ext st)).
 
